@@ -246,11 +246,14 @@ def operand_spec(rng, fam, a, widths=(64, 64)):
     if fam in ("csr", "csc", "coo2"):
         return {"via": "scipy", "kind": {"coo2": "coo"}.get(fam, fam), "shape": list(a.shape), "dtype": str(a.dtype),
                 "idx_dtype": f"int{widths[1] if widths[1] in (32, 64) else 32}", "vals": enc_vals(a)}
-    fac = {"csf": "csf", "coo": "coo"}[fam]
+    fac = {"csf": "csf", "coo": "coo", "csc-arrays": "csf"}[fam]
     kinds = FACTORY_KINDS[fac](nd)
-    arrs, akinds, vals = encode_levels(kinds, list(range(nd)), a)
-    return {"via": "arrays", "shape": list(a.shape), "array_kinds": akinds, "arrays": arrs, "vals": enc_vals(vals),
-            "format": {"factory": fac, "ndim": nd, "pos": widths[0], "crd": widths[1], "dtype": str(a.dtype)}}
+    order = [1, 0] if fam == "csc-arrays" else list(range(nd))
+    arrs, akinds, vals = encode_levels(kinds, order, a)
+    fmt = {"factory": fac, "ndim": nd, "pos": widths[0], "crd": widths[1], "dtype": str(a.dtype)}
+    if fam == "csc-arrays":
+        fmt["order"] = order
+    return {"via": "arrays", "shape": list(a.shape), "array_kinds": akinds, "arrays": arrs, "vals": enc_vals(vals), "format": fmt}
 
 
 def families(nd):
@@ -271,7 +274,7 @@ def xfail(op, fams, dtype, nd):
         return "llvm-project#116012 (COO operand of add)"
     if op == "asformat" and "coo2" in fams:
         return "llvm-project#116012 (COO in asformat)"
-    if op == "reshape" and "csc" in fams:
+    if op == "reshape" and ("csc" in fams or "csc-arrays" in fams):
         return "llvm-project#109641 (reshape of CSC)"
     if np.dtype(dtype).kind == "c" and nd == 1 and "coo" in fams:
         return "sparse_vector format returns incorrect results for complex dtypes"
@@ -437,6 +440,53 @@ def gen_ops(ctx, rng):
                 t.update(target_format(fb, nd, dt))
                 tasks.append(t)
                 meta[tid] = {"op": "asformat", "fams": [fa, fb], "dtype": dt, "expected": a, "nd": nd}
+    # index widths under load: coordinate width 8 (extents <= 127) with pointer width 16/32/64 and more stored entries
+    # than an 8-bit integer can count (> 127, > 255): the result's pointer buffers must keep the operands' pointer width
+    def dense_count(shape, dt, n_stored):
+        a = np.zeros(int(np.prod(shape)), dtype=dt)
+        idx = rng.choice(a.size, size=n_stored, replace=False)
+        a[idx] = rng.integers(1, 5, size=n_stored)
+        return a.reshape(shape)
+
+    wide = [((40, 50), 300, (32, 8)), ((40, 50), 140, (16, 8)), ((100, 120), 700, (64, 8))]
+    if not quick:
+        wide += [((40, 50), 300, (16, 8)), ((40, 50), 600, (64, 8)), ((100, 120), 2000, (32, 8)), ((40, 60), 1000, (16, 8)),
+                 ((100, 120), 300, (64, 16))]
+    for i, (shape, nst, w) in enumerate(wide):
+        dt = ["int32", "float64", "int16"][(i + seed) % 3]
+        pairs = [("csf", "csf"), ("csf", "csc-arrays"), ("dense", "csf")]
+        if quick:
+            pairs = [pairs[(i + seed) % 3]]
+        for fa, fb in pairs:
+            a, b = dense_count(shape, dt, nst), dense_count(shape, dt, nst)
+            tid = f"op-add-wide-{k}"; k += 1
+            tasks.append({"id": tid, "kind": "op", "op": "add",
+                          "operands": [operand_spec(rng, fa, a, w), operand_spec(rng, fb, b, w)]})
+            meta[tid] = {"op": "add", "fams": [fa, fb], "dtype": dt, "expected": a + b, "nd": 2, "widths": list(w), "stored": nst}
+        # target extents must fit the coordinate type as well (the result keeps the operands' coordinate width)
+        dsts = {(40, 50): [(50, 40), (20, 100), (100, 20)], (100, 120): [(120, 100), (96, 125), (125, 96)],
+                (40, 60): [(60, 40), (20, 120), (24, 100)]}[shape]
+        dst = dsts[(i + seed) % 3]
+        a = dense_count(shape, dt, nst)
+        tid = f"op-reshape-wide-{k}"; k += 1
+        tasks.append({"id": tid, "kind": "op", "op": "reshape", "operands": [operand_spec(rng, "csf", a, w)], "shape": list(dst)})
+        meta[tid] = {"op": "reshape", "fams": ["csf"], "dtype": dt, "expected": a.reshape(dst), "nd": 2, "to": list(dst),
+                     "widths": list(w), "stored": nst}
+
+    # asformat to an EQUAL but not IDENTICAL format object (constructor, dataclasses.replace, deepcopy, pickle):
+    # a no-op by the `format == x.format` rule; whatever is returned must not alias-and-own the operand's buffers
+    for nd in (1, 2, 3):
+        for fam in families(nd):
+            for j, how in enumerate(("ctor", "replace", "deepcopy", "pickle")):
+                if quick and (j + nd + len(fam) + seed) % 2:
+                    continue
+                dt = DTYPES[(j + nd + seed) % len(DTYPES)]
+                if xfail("asformat", [fam, fam], dt, nd):
+                    continue
+                a = rand_dense(rng, small_shape(rng, nd, 36), dt)
+                tid = f"op-asformat-equal-{k}"; k += 1
+                tasks.append({"id": tid, "kind": "op", "op": "asformat", "operands": [operand_spec(rng, fam, a)], "format_clone": how})
+                meta[tid] = {"op": "asformat", "fams": [fam, f"equal-{how}"], "dtype": dt, "expected": a, "nd": nd}
     return tasks, meta
 
 
@@ -538,6 +588,22 @@ def ownership_programs(ctx, rng):
                    ["op", "Z", "reshape", ["X"], {"shape": [2, 6]}],
                    ["op", "W", "asformat", ["X"], {"format": csr_fmt}]],           # same format: the same object
                   ["d", "X", "Y", "Z"]))
+    # asformat to an equal-but-not-identical format object, on an input-backed array (X) and on an owning result (R)
+    hows = ["ctor", "replace", "deepcopy", "pickle"]
+    for j, how in enumerate(hows):
+        if ctx.quick and j != ctx.seed % 4 and j != (ctx.seed + 1) % 4:
+            continue
+        progs.append((f"asformat-equal-{how}",
+                      [["np", "ip", {"via": "numpy", "shape": [len(arrs[0])], "dtype": "int32", "vals": arrs[0]}],
+                       ["np", "ix", {"via": "numpy", "shape": [len(arrs[1])], "dtype": "int32", "vals": arrs[1]}],
+                       ["np", "d", {"via": "numpy", "shape": [len(vals)], "dtype": "int32", "vals": enc_vals(vals)}],
+                       ["from_arrays", "X", csr_fmt, ["ip", "ix", "d"], [4, 3]],
+                       ["op", "Y", "asformat", ["X"], {"format_clone": how}]],
+                      ["d", "X", "Y"]))
+        progs.append((f"asformat-equal-result-{how}",
+                      [["np", "a", np_spec(a)], ["asarray", "x", "a"], ["op", "r", "add", ["x", "x"]],
+                       ["op", "q", "asformat", ["r"], {"format_clone": hows[(j + 1) % 4]}]],
+                      ["x", "r", "q"]))
     v1 = rand_dense(rng, (6,), "float64", 1.0)
     progs.append(("reshape-1d",
                   [["np", "a", np_spec(v1)], ["asarray", "x", "a"], ["op", "r", "reshape", ["x"], {"shape": [6]}]],
@@ -569,6 +635,7 @@ def model_commands(program, infos, delete):
     nid = 0
     groups = []
     nfields = {}
+    mismatches = []
 
     def new(r):
         nonlocal nid
@@ -595,6 +662,12 @@ def model_commands(program, infos, delete):
             cmds += [["drop", s], ["collect"]]
             nfields[st[1]] = len(st[3])
         elif kind == "op":
+            equal_fmt = st[2] == "asformat" and "format_clone" in (st[4] if len(st) > 4 else {})
+            if equal_fmt and not info.get("alias_of"):
+                # model: `asformat` to an equal format returns the operand, no new storage.  The backend built one:
+                # keep the ids aligned with what happened (so that later statements still compare) and report it.
+                mismatches.append(f"{st[1]} = asformat({st[3][0]}, <equal format>): the model returns the operand itself, "
+                                  f"the backend built a new {'aliasing ' if info.get('aliased') else ''}owning storage")
             if info.get("alias_of"):
                 cmds.append(["alias", name[info["alias_of"]]])
                 name[st[1]] = name[info["alias_of"]]
@@ -649,7 +722,7 @@ def model_commands(program, infos, delete):
         groups.append(cmds)
     for n in delete:
         groups.append([["drop", name[n]], ["collect"]])
-    return groups, role, name
+    return groups, role, name, mismatches
 
 
 def shape_of(program, name):
@@ -700,7 +773,9 @@ def check_ownership(ctx, label, program, delete, res, case):
             ctx.fail("C", "ownership:foreign-free", case, f"free_memref called on an allocation no live result owns: {d['events']}")
     # ---- leg A: the model's trace
     infos = [t["info"] for t in res["trace"]]
-    groups, role, name = model_commands(program, infos, delete)
+    groups, role, name, mismatches = model_commands(program, infos, delete)
+    for mm in mismatches:
+        ctx.fail("A", "ownership:asformat-noop", case, mm)
     flat = [c for g in groups for c in g]
     out = ctx.driver.run([["c20_own_run", True, True, flat]])[0]
     if "ok" not in out or "stuck" in out["ok"]:
@@ -1180,8 +1255,9 @@ def check_ops(ctx, tasks, meta, res):
             fail_c(ctx, name, case, "result stores an index twice")
         if list(dense.shape) != list(exp.shape) or str(dense.dtype) != str(exp.dtype) or not same(dense, exp):
             fail_c(ctx, name, case, f"result means {dense.tolist()!r:.160} ({dense.dtype}, shape {list(dense.shape)}); NumPy gives {exp.tolist()!r:.160} ({exp.dtype})")
-        reqs.append(["c20_todense", d["fmt"], d["shape"], d["arrays"], list(range(1, len(d["vals"]) + 1))])
-        after.append((case, posarr))
+        if posarr.size <= 2500:   # the Lean decode is quadratic; the large index-width cases are decoded by the reference walk only
+            reqs.append(["c20_todense", d["fmt"], d["shape"], d["arrays"], list(range(1, len(d["vals"]) + 1))])
+            after.append((case, posarr))
         # result format against the model of _determine_format
         ofm = [o["fmt"] for o in r["operands"]]
         if m["op"] == "add":
